@@ -102,7 +102,7 @@ instance (is is' : List SrcInstr) : Decidable (ProgRecased is is') :=
 no earlier occurrence has the same folded form -/
 def IsFirstIn [DecidableEq N] (fold : N → N) (T : List N) (c : N) : Prop := lookupFold fold T c = some c
 
-theorem isFirstIn_iff [DecidableEq N] (fold : N → N) (T : List N) (c : N) :
+theorem C13_isFirstIn_iff [DecidableEq N] (fold : N → N) (T : List N) (c : N) :
     IsFirstIn fold T c ↔ ∃ l₁ l₂, T = l₁ ++ c :: l₂ ∧ ∀ x ∈ l₁, fold x ≠ fold c := by
   unfold IsFirstIn lookupFold
   rw [List.find?_eq_some_iff_append]
@@ -160,7 +160,7 @@ theorem C13_recase_abilities {p p' : Proc (List Char)} (h : p = p') :
 
 /-! ## 2. reported spellings are first spellings -/
 
-theorem lookupFold_idem {T : List N} {x s : N} (h : lookupFold fold T x = some s) : IsFirstIn fold T s := by
+private theorem lookupFold_idem {T : List N} {x s : N} (h : lookupFold fold T x = some s) : IsFirstIn fold T s := by
   have := (lookupFold_some fold h).2
   unfold IsFirstIn
   rw [lookupFold_congr fold this, h]
@@ -306,6 +306,12 @@ theorem C13_recase_program {is is' : List SrcInstr} (ws : List LineWs) (tail : L
   · exact False.elim h
   · exact False.elim h
   · exact forall2_toProg h
+
+/-- `ProgSame` spelled out with the key `compile_program` uses (`name.upper()`) -/
+theorem C13_progSame_iff (p p' : Program.ProgInstr) :
+    ProgSame p p' ↔ upper p.name = upper p'.name ∧ p.srcs = p'.srcs ∧ p.dst = p'.dst ∧ p.line = p'.line := by
+  unfold ProgSame
+  rw [IsaLemmas.upper_eq_iff_lower_eq]
 
 /-- **C13 (4), compiling.** Programs that agree but for the letter case of their mnemonics compile to the same
 hardware program, or fail at the same line on the same mnemonic (up to case). -/
